@@ -355,7 +355,8 @@ pub fn run(args: &Args) -> i32 {
     ));
     rep.assume("whitespace around the value, scheme case, duplicate headers and unpadded base64 are EITHER (accepted or 407, never anything else)");
     rep.assume("a connection whose SNI credentials are rejected is dropped before any request is read: judged for zero egress only");
-    rep.assume("HTTP/3 is not exercised in this check");
+    rep.assume("HTTP/3: credential table x {CONNECT host:port, _check, _udp2} as one long session over real QUIC on loopback (real Core::listen + registry authenticator + DirectForwarder against a counting canary)");
     scenarios(&rep, args);
+    crate::props::h3_l2::c01_h3(&rep, args);
     rep.finish()
 }
